@@ -242,7 +242,7 @@ class AgentBehaviour(RandomBehaviour):
             n = 1 + (r.random() < 0.25)
             for j in range(n):
                 val = tok(p.sid, p.k, "sd" + (str(j) if j else ""))
-                rep.calls.append(("set_data", {f"{p.sid}.E0": {f"{a['target']}.E0": {a["attr"]: val}}}))
+                rep.calls.append(("set_data", {f"{p.sid}.E0": {f"{a['target']}.{a.get('eid', 'E0')}": {a["attr"]: val}}}))
         if a and a.get("get") and r.random() < 0.5:
             rep.calls.append(("get_data", {f"{a['target']}.E0": [a["get"]]}))
         for ill in self.illegal:
